@@ -27,7 +27,8 @@
 (*           appended, afterwards, and again                                    *)
 (* a cmd with op "scrollid" is a jump by transition id (ScrollToTx{TxId}); the  *)
 (* id may belong to a record that has not been ingested yet; the line carries   *)
-(* what Client.TxIndex answers right after the command                          *)
+(* what Client.TxIndex answers right after the command, and whether the         *)
+(* ScrollToTx handler ran (a refused jump is judged by that answer alone)        *)
 EXTENDS Debugger, Json
 
 CONSTANT TraceFile
@@ -178,13 +179,14 @@ EvCmd(x) ==
                     B(lv.cursor \in 0..n, "CursorRange"),
                     B(fb, "FwdBackIdentity"),
                     \* what the filtered view lists matches the filters: judged on all the records
-                    \* right after a re-filter, on the records up to the listed one at any time
-                    B(IF c.op = "toggle" THEN FilteredSound(lv, sch, recs, diffs)
+                    \* right after a re-filter (a toggle that took effect: the filter states
+                    \* changed), on the records up to the listed one at any time
+                    B(IF c.op = "toggle" /\ lv.F # ctx.v.F THEN FilteredSound(lv, sch, recs, diffs)
                       ELSE FilteredSoundPrefix(lv, sch, recs, diffs), "FilteredSound"),
                     \* the look-up by transition id answers what a scan over the records held
                     \* NOW answers, and the jump shows that transition
                     B(~byid \/ x.txidx = ScanTxIndex(ids, c.id), "LookupEqualsScan.txid"),
-                    B(~byid \/ JumpLands(lv, ids, c.id), "LookupEqualsScan.txid")},
+                    B(~byid \/ ~x.ran \/ JumpLands(lv, ids, c.id), "LookupEqualsScan.txid")},
        c |-> [ctx EXCEPT !.v = lv, !.last = last, !.txc = probe.cache],
        k |-> IF ctx.last.op = "fwd" /\ c.op = "back" /\ ctx.last.to # ctx.last.from THEN "fwdback" ELSE "cmd"]
 
